@@ -31,6 +31,7 @@ func init() {
 		causeRule, lockRule,
 		Rule{ID: "R17d", Doc: "TLS dials hand the dial context to the handshake (shared with C17)", Floor: 3, Run: r17d},
 		Rule{ID: "R05g", Doc: "a pooled connection reported Available never refuses the next id, and one that refuses is retired (otherwise every exchange on it fails until it idles out; shared with C05)", Floor: 4, AllVariants: true, Run: r05g},
+		Rule{ID: "R14h", Doc: "a dead cached QUIC connection is detected on its own context", Floor: 2, AllVariants: true, Run: r14h},
 	)
 }
 
